@@ -389,17 +389,17 @@ def rule_r7(F, rep):
 
 
 def run(F, rep, tier):
-    rule_r1(F, rep)
-    rule_r2(F, rep)
-    rule_r3(F, rep)
-    rule_r4(F, rep)
-    rule_r5(F, rep)
-    rule_r6(F, rep)
-    rule_r7(F, rep)
+    rep.attempt(rule_r1, F, rep)
+    rep.attempt(rule_r2, F, rep)
+    rep.attempt(rule_r3, F, rep)
+    rep.attempt(rule_r4, F, rep)
+    rep.attempt(rule_r5, F, rep)
+    rep.attempt(rule_r6, F, rep)
+    rep.attempt(rule_r7, F, rep)
     # a file that imports itself under another spelling (`lib/../self.jsonnet`) is a self-dependent value only if both spellings
     # reach the same thunk: the source cache must be keyed by the canonical path
     from . import c13
-    c13.rule_r2(F, rep)
+    rep.attempt(c13.rule_r2, F, rep)
     rep.assume("tail calls marked `tailstrict` are deliberately not counted (tail-call elimination is the language's "
                "semantics); frames for nesting that goes through expression evaluation are decided only as far as R2/R5 "
                "reach; the exact off-by-one of the limit is not decided")
